@@ -3,4 +3,4 @@ From Coq Require Import Extraction ExtrOcamlBasic.
 From BLB Require Import C07.Model.
 Extraction Language OCaml.
 Set Extraction Output Directory ".".
-Extraction "model.ml" run_case.
+Extraction "model.ml" c07_run_case.
